@@ -3,6 +3,9 @@ import copy
 from .common import *  # noqa
 
 KEYS = {"comps"}
+# observations whose model value is the property's specified value (a disagreement there is a failing input);
+# on the others the correspondence supports the tie and the oracle searches for the failing input
+SPEC_KEYS = {"build"}
 
 
 def strat_ops(p):
